@@ -55,6 +55,9 @@ class SyncWorld(World):
                 v = interp.deref_all(v)
                 if v is None or d > 5:
                     return
+                if v[0] == 'opaque' and str(v[1]).startswith('doc:'):
+                    tags.append(v[1][4:])          # (an entry taken out of its list: a Single(entry) variant of a private batch enum)
+                    return
                 if v[0] == 'vec':
                     for x in v[1]:
                         x = interp.deref_all(x.v if isinstance(x, Cell) else x)
